@@ -22,10 +22,14 @@ import (
 )
 
 func init() {
-	register("C19",
-		"C19-g (FLOW, block level): in builder.FromPcap's loop over the batch of file names every path from the start of an iteration to the next iteration passes the increment of the counter that is returned as the first result; an iteration can only end uncounted by leaving the loop. The manager cuts that many entries from the head of the queue, so the count must be the length of a prefix of the batch: an uncounted file that is passed over makes a later capture be imported twice, or the same capture for ever.",
-		func(p *Prog, r *Res) {
-			const rule = "C19-g count-is-a-prefix-length"
+	const expl = "(FLOW, block level): in builder.FromPcap's loop over the batch of file names every path from the start of an iteration to the next iteration passes the increment of the counter that is returned as the first result; an iteration can only end uncounted by leaving the loop. The manager cuts that many entries from the head of the queue, so the count must be the length of a prefix of the batch: an uncounted file that is passed over makes a later capture be imported twice, or the same capture for ever (the import queue never drains: seeded C09m, a header-only capture)."
+	register("C19", "C19-g "+expl, func(p *Prog, r *Res) { ruleCountIsPrefixLength(p, r, "C19-g count-is-a-prefix-length") })
+	register("C09", "C09-i "+expl, func(p *Prog, r *Res) { ruleCountIsPrefixLength(p, r, "C09-i count-is-a-prefix-length") })
+}
+
+func ruleCountIsPrefixLength(p *Prog, r *Res, rule string) {
+	{
+		{
 			r.Rule(rule + ": no iteration over the batch completes without counting the file")
 			f := p.Fn("builder.Builder.FromPcap")
 			if f == nil {
@@ -132,5 +136,6 @@ func init() {
 				return true
 			})
 			r.Floor(rule, 1, n)
-		})
+		}
+	}
 }
